@@ -152,6 +152,11 @@ def variants(cls, base, schema, types, mins, rnd):
                 continue
             out.append(("order-list-member %s %s %s" % (L["a"], "after" if after else "before", T["a"]), "", [n[0], n[1], rest], ("etree",)))
             break
+    # 12. every repeated child taken away (classes whose own validator wants some member)
+    n = copy.deepcopy(base)
+    n[2] = [k for k in n[2] if bytag.get(k[0], {}).get("k") not in ("lagg", "lelem")]
+    if len(n[2]) != len(base[2]):
+        out.append(("no-list-members", "", n, both))
     # 11. slot kinds
     for a in attrs:
         if a["k"] in ("sub", "lagg"):
